@@ -13,7 +13,12 @@
 static volatile long g_cur_index = -1;
 static volatile unsigned long long g_cur_seed = 0;
 
-static void put(const char *s) { (void)!write(1, s, strlen(s)); }
+// The worker protocol (S/R/X/F/D/O lines) goes to a private duplicate of the original stdout; fd 1 itself is
+// pointed at /dev/null, so that anything the code under test prints (debug output a maintainer may add) cannot
+// corrupt the protocol.
+static int g_proto_fd = 1;
+static FILE *PF = stdout;
+static void put(const char *s) { (void)!write(g_proto_fd, s, strlen(s)); }
 static void put_u(unsigned long long v)
 {
     char b[24];
@@ -40,7 +45,7 @@ static void crash_handler(int sig)
 }
 static void fatal_hook(const char *what)
 {
-    fflush(stdout);
+    fflush(PF);
     put("\nF ");
     put_u((unsigned long long)g_cur_index);
     put(" ");
@@ -76,18 +81,23 @@ static bool has_flag(int argc, char **argv, const char *name)
 
 int main(int argc, char **argv)
 {
-    setvbuf(stdout, nullptr, _IOLBF, 1 << 16);
+    g_proto_fd = dup(1);
+    PF = fdopen(g_proto_fd, "w");
+    setvbuf(PF, nullptr, _IOLBF, 1 << 16);
+    exec::g_trace_file = PF;
+    if (!freopen("/dev/null", "w", stdout))
+        return 2;
     sim::init();
     sim::g_fatal_hook = fatal_hook;
     std::string err;
     if (!exec::init(err))
     {
-        printf("HARNESS-ERROR oracle self-check failed: %s\n", err.c_str());
+        fprintf(PF, "HARNESS-ERROR oracle self-check failed: %s\n", err.c_str());
         return 2;
     }
     if (has_flag(argc, argv, "--selfcheck"))
     {
-        printf("SELFCHECK ok flavour=%s per_member_tls=%d\n", sim::g_asan_flavour ? "coarse" : "tsh", (int)sim::member_tls_enabled());
+        fprintf(PF, "SELFCHECK ok flavour=%s per_member_tls=%d\n", sim::g_asan_flavour ? "coarse" : "tsh", (int)sim::member_tls_enabled());
         return 0;
     }
 #ifndef SIM_ASAN
@@ -115,7 +125,7 @@ int main(int argc, char **argv)
         std::ifstream f(path);
         if (!f)
         {
-            printf("HARNESS-ERROR cannot open %s\n", path.c_str());
+            fprintf(PF, "HARNESS-ERROR cannot open %s\n", path.c_str());
             return 2;
         }
         std::stringstream ss;
@@ -128,15 +138,15 @@ int main(int argc, char **argv)
         }
         catch (std::exception &e)
         {
-            printf("HARNESS-ERROR bad replay file: %s\n", e.what());
+            fprintf(PF, "HARNESS-ERROR bad replay file: %s\n", e.what());
             return 2;
         }
         exec::g_record = has_flag(argc, argv, "--record");
         exec::g_trace_ops = true;
         g_cur_index = 0;
         g_cur_seed = p.seed;
-        printf("S 0 %llu\n", (unsigned long long)p.seed);
-        fflush(stdout);
+        fprintf(PF, "S 0 %llu\n", (unsigned long long)p.seed);
+        fflush(PF);
         exec::RunResult r = exec::run_plan_checked(p);
         js::Value out = exec::result_json(r, true);
         if (exec::g_record)
@@ -152,8 +162,8 @@ int main(int argc, char **argv)
             out.set("explicit_plan", q.to_json());
             out.set("recorded_truncated", js::Value::Bool(r.recorded_truncated));
         }
-        printf("R 0 %s\n", out.str().c_str());
-        fflush(stdout);
+        fprintf(PF, "R 0 %s\n", out.str().c_str());
+        fflush(PF);
         return r.violations.empty() ? 0 : 1;
     }
 
@@ -161,7 +171,7 @@ int main(int argc, char **argv)
     {
         uint64_t idx = strtoull(arg_of(argc, argv, "--index", "0").c_str(), nullptr, 10);
         plan::Plan p = plan::generate(profile, derive_seed(base, idx), lim);
-        printf("%s\n", p.to_json().str().c_str());
+        fprintf(PF, "%s\n", p.to_json().str().c_str());
         return 0;
     }
 
@@ -176,21 +186,21 @@ int main(int argc, char **argv)
             uint64_t seed = derive_seed(base, i);
             g_cur_index = (long)i;
             g_cur_seed = seed;
-            printf("S %llu %llu\n", (unsigned long long)i, (unsigned long long)seed);
-            fflush(stdout);
+            fprintf(PF, "S %llu %llu\n", (unsigned long long)i, (unsigned long long)seed);
+            fflush(PF);
             plan::Plan p = plan::generate(profile, seed, lim);
             exec::RunResult r = exec::run_plan_checked(p);
             js::Value out = exec::result_json(r, true);
             out.set("seed", js::Value::U(seed));
             if (!r.violations.empty() || (samples && i < start + 3 * stride))
                 out.set("plan", p.to_json());
-            printf("R %llu %s\n", (unsigned long long)i, out.str().c_str());
-            fflush(stdout);
+            fprintf(PF, "R %llu %s\n", (unsigned long long)i, out.str().c_str());
+            fflush(PF);
         }
-        printf("D %llu\n", (unsigned long long)start);
-        fflush(stdout);
+        fprintf(PF, "D %llu\n", (unsigned long long)start);
+        fflush(PF);
         return 0;
     }
-    printf("usage: gsim --worker|--replay f|--gen|--selfcheck ...\n");
+    fprintf(PF, "usage: gsim --worker|--replay f|--gen|--selfcheck ...\n");
     return 2;
 }
